@@ -133,11 +133,12 @@ inductive RangeKind where
   | dict | set
   deriving DecidableEq, Repr
 
+/-- A default is a factory (`default_val` callable, or `lambda: value`): `d k` is what its call
+number `k` (0, 1, …) returns. -/
 inductive Rule (V : Type) where
-  | ext (d : V)
-  | col (title : Key) (ct : Nat) (dflt : Option V)
+  | ext (d : Nat → V)
+  | col (title : Key) (ct : Nat) (dflt : Option (Nat → V))
   | range (kind : RangeKind) (ct : Nat) (opt : Bool)
-  deriving Repr
 
 /-- one entry of `columns_map`: `None`, a column position, `(names, positions)` -/
 inductive Slot where
@@ -185,8 +186,9 @@ def bindRule {V : Type} (titles known : List Key) : Rule V → Except Err Slot
       | some ids => .ok (.range names ids)
       | none => .error .keyError      -- `col_names_ids[n]`; proved impossible
 
-def bindTitles {V : Type} (titles : List Key) (rules : List (Rule V)) : Except Err (List Slot) :=
-  mapE (bindRule titles (knownTitles rules)) rules
+/-- `known`: the titles named by the rules of *all* rule sets of the reader -/
+def bindTitles {V : Type} (titles known : List Key) (rules : List (Rule V)) : Except Err (List Slot) :=
+  mapE (bindRule titles known) rules
 
 /-! ## one row → one object (`cells_from_row`, `XlsObject.construct`, `__init__`) -/
 
@@ -237,7 +239,7 @@ def markedKeys {V : Type} (cv : Conv V) : List (Key × V) → List Key
   | (k, v) :: r => if cv.truthy v then k :: markedKeys cv r else markedKeys cv r
 
 /-- body of the loop in `XlsObject.__init__` -/
-def initAttr {V : Type} (cv : Conv V) : Rule V → Src → Except Err (AVal V × Origin)
+def initAttr {V : Type} (cv : Conv V) (k : Nat) : Rule V → Src → Except Err (AVal V × Origin)
   | .range kind ct _, .range names cells =>
     match mapE (fun c => cv.conv ct c.val) cells with
     | .error e => .error e
@@ -247,11 +249,11 @@ def initAttr {V : Type} (cv : Conv V) : Rule V → Src → Except Err (AVal V ×
       | .dict => .ok (.dict (dictOf (names.zip vs)), .range orgs)
       | .set => .ok (.set (setOf (markedKeys cv (names.zip vs))), .range orgs)
   | .range _ _ _, _ => .error .typeError            -- `column_names, cells = cell`; unreachable
-  | .ext d, .none => .ok (.plain d, .na)
+  | .ext d, .none => .ok (.plain (d k), .na)
   | .ext _, _ => .error .assertion                  -- `assert cell is None`; unreachable
   | .col _ _ dflt, .none =>
     match dflt with
-    | some d => .ok (.plain d, .skipped)
+    | some d => .ok (.plain (d k), .skipped)
     | none => .error .assertion                     -- `assert default_factory is not None`; unreachable
   | .col _ ct _, .cell c =>
     match cv.conv ct c.val with
@@ -259,18 +261,23 @@ def initAttr {V : Type} (cv : Conv V) : Rule V → Src → Except Err (AVal V ×
     | .error e => .error e
   | .col _ _ _, .range _ _ => .error .attributeError  -- unreachable
 
-def zipInit {V : Type} (cv : Conv V) : List (Rule V) → List Src → Except Err (List (AVal V × Origin))
+def zipInit {V : Type} (cv : Conv V) (k : Nat) :
+    List (Rule V) → List Src → Except Err (List (AVal V × Origin))
   | r :: rs, s :: ss =>
-    match initAttr cv r s with
+    match initAttr cv k r s with
     | .error e => .error e
     | .ok a =>
-      match zipInit cv rs ss with
+      match zipInit cv k rs ss with
       | .error e => .error e
       | .ok as => .ok (a :: as)
   | _, _ => .ok []
 
+/-- `serial` is not an attribute of the Python object: it records which run of `__init__` of its
+rule set made the object (0, 1, …), i.e. which call of the default factories it got its defaults
+from -/
 structure Obj (V : Type) where
   attrs : List (AVal V × Origin)
+  serial : Nat
   deriving Repr
 
 def AVal.isNone {V : Type} (cv : Conv V) : AVal V → Bool
@@ -285,9 +292,10 @@ def keyIsNone {V : Type} (cv : Conv V) (numId : Nat) (attrs : List (AVal V × Or
 `ensure_equal` only) is the first entry of `cells_list` that is a cell, `"<n/a>"` if there is none:
 it never fails and does not influence what is modelled here. -/
 
-/-- `cls.construct(*cells_map.cells_from_row(row))` -/
+/-- `cls.construct(*cells_map.cells_from_row(row))`; `k` = how often `__init__` of this rule set has
+run before (every run calls every default factory once) -/
 def construct {V : Type} (cv : Conv V) (numId : Nat) (rules : List (Rule V)) (slots : List Slot)
-    (row : Row) : Except Err (Option (Obj V)) :=
+    (k : Nat) (row : Row) : Except Err (Option (Obj V)) :=
   match mapE (srcOf row) slots with
   | .error e => .error e
   | .ok srcs =>
@@ -296,10 +304,20 @@ def construct {V : Type} (cv : Conv V) (numId : Nat) (rules : List (Rule V)) (sl
     | .ok ke =>
       if ke && decide (0 < numId) then .ok none
       else if rules.length < numId then .error .assertion
-      else match zipInit cv rules srcs with
+      else match zipInit cv k rules srcs with
         | .error e => .error e
         | .ok attrs =>
-          if decide (0 < numId) && keyIsNone cv numId attrs then .ok none else .ok (some ⟨attrs⟩)
+          if decide (0 < numId) && keyIsNone cv numId attrs then .ok none else .ok (some ⟨attrs, k⟩)
+
+/-- does `construct` get as far as `__init__` (and so calls the default factories) for this row?
+(`false` for the rows it answers with `None` because all key cells are blank) -/
+def ranInit (numId : Nat) (slots : List Slot) (row : Row) : Bool :=
+  match mapE (srcOf row) slots with
+  | .error _ => false
+  | .ok srcs =>
+    match keyEmpty (srcs.take numId) with
+    | .error _ => false
+    | .ok ke => !(ke && decide (0 < numId))
 
 /-! ## the table (`XlsTableReader.iter_table`) -/
 
@@ -312,6 +330,11 @@ structure Cfg (V : Type) where
   ladder : Bool
   numId : Nat
   rules : List (Rule V)
+  /-- titles named by the other rule sets of the same reader (none for `iter_table`) -/
+  extra : List Key
+
+/-- `known_cols_names`: the union over all rule sets of the reader -/
+def Cfg.known {V : Type} (cfg : Cfg V) : List Key := knownTitles cfg.rules ++ cfg.extra
 
 structure Out (V : Type) where
   objs : List (Option (Obj V))
@@ -353,10 +376,13 @@ def curRow (p : Option Nat) (prev : Option Row) (row : Row) : Except Err Row :=
   | some p, some pr => fillRow p pr row
   | _, _ => .ok row
 
+def nextK (numId : Nat) (slots : List Slot) (k : Nat) (cur : Row) : Nat :=
+  if ranInit numId slots cur then k + 1 else k
+
 def dataRows {V : Type} (cv : Conv V) (cfg : Cfg V) (slots : List Slot) (p : Option Nat) :
-    Option Row → List Row → Out V
-  | _, [] => ⟨[], none⟩
-  | prev, row :: rest =>
+    Nat → Option Row → List Row → Out V
+  | _, _, [] => ⟨[], none⟩
+  | k, prev, row :: rest =>
     match endFires cfg.stop row with
     | .error e => ⟨[], some e⟩
     | .ok true => ⟨[], none⟩
@@ -364,10 +390,10 @@ def dataRows {V : Type} (cv : Conv V) (cfg : Cfg V) (slots : List Slot) (p : Opt
       match curRow p prev row with
       | .error e => ⟨[], some e⟩
       | .ok cur =>
-        match construct cv cfg.numId cfg.rules slots cur with
+        match construct cv cfg.numId cfg.rules slots k cur with
         | .error e => ⟨[], some e⟩
         | .ok o =>
-          let out := dataRows cv cfg slots p (some cur) rest
+          let out := dataRows cv cfg slots p (nextK cfg.numId slots k cur) (some cur) rest
           ⟨o :: out.objs, out.err⟩
 
 def ladderPos {V : Type} (cfg : Cfg V) (titles : List Key) : Option Nat :=
@@ -379,9 +405,80 @@ def iterTable {V : Type} (cv : Conv V) (cfg : Cfg V) : Sheet → Out V
     if rowEmpty row then iterTable cv cfg rest
     else
       let titles := row.map (fun c => titleOf c.val)
-      match bindTitles titles cfg.rules with
+      match bindTitles titles cfg.known cfg.rules with
       | .error e => ⟨[], some e⟩
-      | .ok slots => dataRows cv cfg slots (ladderPos cfg titles) none rest
+      | .ok slots => dataRows cv cfg slots (ladderPos cfg titles) 0 none rest
+
+/-! ## several objects per row: `XlsTableReader(rules_a, rules_b, …).iter_table(worksheet, …)` -/
+
+/-- `sets`: `_NUM_ID_ATTRS` and the rules of every object class, in the order given to the reader -/
+structure Reader (V : Type) where
+  stop : Stop
+  ladder : Bool
+  sets : List (Nat × List (Rule V))
+
+/-- titles named by a rule of any rule set of the reader -/
+def allKnown {V : Type} : List (Nat × List (Rule V)) → List Key
+  | [] => []
+  | s :: ss => knownTitles s.2 ++ allKnown ss
+
+/-- one rule set as `iter_table` sees it, with the reader's known titles -/
+def Reader.cfgOf {V : Type} (r : Reader V) (s : Nat × List (Rule V)) : Cfg V :=
+  ⟨r.stop, r.ladder, s.1, s.2, allKnown r.sets⟩
+
+def Reader.cfgs {V : Type} (r : Reader V) : List (Cfg V) := r.sets.map r.cfgOf
+
+/-- what the reader yields: per data row the list of results, one per rule set -/
+structure OutM (V : Type) where
+  rows : List (List (Option (Obj V)))
+  err : Option Err
+
+def bindAll {V : Type} (titles : List Key) (cfgs : List (Cfg V)) : Except Err (List (List Slot)) :=
+  mapE (fun c => bindTitles titles c.known c.rules) cfgs
+
+def constructAll {V : Type} (cv : Conv V) :
+    List (Cfg V) → List (List Slot) → List Nat → Row → Except Err (List (Option (Obj V)))
+  | c :: cs, sl :: sls, k :: ks, row =>
+    match construct cv c.numId c.rules sl k row with
+    | .error e => .error e
+    | .ok o =>
+      match constructAll cv cs sls ks row with
+      | .error e => .error e
+      | .ok os => .ok (o :: os)
+  | _, _, _, _ => .ok []
+
+def nextKs {V : Type} : List (Cfg V) → List (List Slot) → List Nat → Row → List Nat
+  | c :: cs, sl :: sls, k :: ks, row => nextK c.numId sl k row :: nextKs cs sls ks row
+  | _, _, _, _ => []
+
+def dataRowsM {V : Type} (cv : Conv V) (stop : Stop) (cfgs : List (Cfg V)) (slotss : List (List Slot))
+    (p : Option Nat) : List Nat → Option Row → List Row → OutM V
+  | _, _, [] => ⟨[], none⟩
+  | ks, prev, row :: rest =>
+    match endFires stop row with
+    | .error e => ⟨[], some e⟩
+    | .ok true => ⟨[], none⟩
+    | .ok false =>
+      match curRow p prev row with
+      | .error e => ⟨[], some e⟩
+      | .ok cur =>
+        match constructAll cv cfgs slotss ks cur with
+        | .error e => ⟨[], some e⟩
+        | .ok os =>
+          let out := dataRowsM cv stop cfgs slotss p (nextKs cfgs slotss ks cur) (some cur) rest
+          ⟨os :: out.rows, out.err⟩
+
+def iterTableM {V : Type} (cv : Conv V) (r : Reader V) : Sheet → OutM V
+  | [] => ⟨[], none⟩
+  | row :: rest =>
+    if rowEmpty row then iterTableM cv r rest
+    else
+      let titles := row.map (fun c => titleOf c.val)
+      match bindAll titles r.cfgs with
+      | .error e => ⟨[], some e⟩
+      | .ok slotss =>
+        dataRowsM cv r.stop r.cfgs slotss (if r.ladder then firstTitled titles else none)
+          (r.cfgs.map fun _ => 0) none rest
 
 /-! ## the wrappers around `iter_table` -/
 
@@ -400,7 +497,7 @@ def readTable {V : Type} (cv : Conv V) (cfg : Cfg V) (s : Sheet) : Except Err (L
 ladder (the class attributes `STOP_ON` / `LADDER_FORMAT` are not passed on) -/
 def readList {V : Type} (cv : Conv V) (numId : Nat) (rules : List (Rule V)) (s : Sheet) :
     Except Err (List (Option (Obj V))) :=
-  readTable cv ⟨.blankAll, false, numId, rules⟩ s
+  readTable cv ⟨.blankAll, false, numId, rules, []⟩ s
 
 /-! ## `get_attr_origin(attr[, range_key])` (strict, without the worksheet prefix) -/
 
